@@ -89,6 +89,9 @@ ILL_TABLES = [  # (stub tag, Z, n_e, t_e): rate tables rate_value(tag, ., 1e-20,
 ]
 
 
+SCALE_PROBES = []
+
+
 def ill_conditioned_probe(ctx, ib):
     """Positive rate tables spanning 7 decades (1e-20 .. 1e-13 m^3/s, the magnitudes of real ADAS data) with
     non-monotone S_z/R_(z+1): the bounded least-squares solve of line 240 is ill-conditioned there and returns
@@ -112,6 +115,16 @@ def ill_conditioned_probe(ctx, ib):
                            "max_abs_deviation": float(dev), "worst_pairwise_relative_imbalance": float(rel_bal),
                            "stub_tag": tag, "stub_scale": 1e-20, "stub_span_decades": 7.0,
                            "entry_point": "fractional_abundance(scalar n_e, t_e), no donor"})
+    # the same root cause seen through scale covariance: the balance is invariant under rates -> rates * 2^k, the result of
+    # the n_e-weighted least-squares solve is not.  Well-conditioned tables (1 decade), fixed.
+    for tag, z, n_e, t_e, scale in (("scaleA", 6, 1.5, 10.0, 2.0 ** -60), ("scaleB", 6, 3e18, 10.0, 1e-14 * 2.0 ** 40)):
+        case = {"Z": z, "tag": tag, "scale": scale, "span": 1.0, "donor": None}
+        out = ib.fractional_abundance(impl.make_stub(tag, scale, 1.0), impl.element(z), n_e, t_e)
+        f = [float(out[c][0]) for c in range(z + 1)]
+        ion, rec, cx = impl.point_rates(case, n_e, t_e)
+        ex, _ = impl.closed_form(ion, rec, None, n_e, 0.0)
+        SCALE_PROBES.append({"table": tag, "rates_scale": scale, "n_e": n_e, "sum_impl": float(sum(f)),
+                             "max_abs_deviation": float(max(abs(F(a) - b) for a, b in zip(f, ex)))})
     return len(ILL_TABLES), worst
 
 
@@ -206,6 +219,11 @@ def run(ctx):
             seen_net.setdefault((pt["n_e"], pt["t_e"]), set()).add(pt["n_d"])
         dist["points_sharing_ne_te_with_other_donor"] = dist.get("points_sharing_ne_te_with_other_donor", 0) + sum(
             len(v) for v in seen_net.values() if len(v) > 1)
+        for key in ("neut_class", "form", "call_form", "element_name"):
+            dist.setdefault(key, {})
+            dist[key][str(case.get(key))] = dist[key].get(str(case.get(key)), 0) + 1
+        dist.setdefault("n_points", {})
+        dist["n_points"][str(len(pts))] = dist["n_points"].get(str(len(pts)), 0) + 1
         for key, val in (("rep", case["rep"]), ("stream", case["stream"]), ("Z", str(case["Z"])),
                          ("donor_mode", case["donor_mode"]), ("species", str(case["n_species"]))):
             dist[key][val] = dist[key].get(val, 0) + 1
@@ -287,6 +305,7 @@ def run(ctx):
     for case, k, pt in all_points:
         interp = case["rep"] in ("interp1d", "interp2d", "eqmap")
         fails = impl.property_at_point(pt, impl.TOL_INTERP if interp else 0.0, ztol_of(case))
+        fails += list(pt.get("extra_fails", []))
         ex, _ = impl.closed_form(pt["ion"], pt["rec"], pt["cx"], pt["n_e"], pt["n_d"])
         tol = impl.base_tol(ex) + (impl.TOL_INTERP if interp else 0.0)
         cls = "resolved" if impl.base_tol(ex) == impl.TOL_RESOLVED else "unresolved"
@@ -307,7 +326,7 @@ def run(ctx):
                         f0 = F(o["values"][0])
                     elif o["kind"] == "dens":
                         f0 = F(o["values"][0]) / F(o["n_el"])
-                    elif o["kind"] == "neut" and sum(o["values"]) > 0:
+                    elif o["kind"] == "neut" and sum(o["values"]) > 1e-9 * pt["n_e"]:     # not a clamped / noise-level result
                         f0 = F(o["values"][0]) / sum(F(v) for v in o["values"])
                     if f0 is not None and f0 < ex0[0] + gap / 2:
                         fails.append(("the CX donor has no effect on the result",
@@ -361,8 +380,38 @@ def run(ctx):
                            "outputs": [{"src": o["src"], "values": o["values"]} for o in pt["outs"]],
                            "correspondence": "coq/Gen/C09/cases_*.v"}, found=False)
 
+    # ---- argument forms the unchanged code rejects, and empty profiles: the outcome is part of the expected behaviour ------
+    pad = impl.make_stub("forms", 1e-14, 1.0)
+    pel = impl.element(3)
+    arr3, te3 = np.array([2e18, 4e18, 8e18]), np.array([10.0, 20.0, 40.0])
+
+    def outcome(fn):
+        try:
+            r = fn()
+            return "ok:" + ",".join(str(np.asarray(r[c]).shape) for c in sorted(r))
+        except Exception as ex:
+            return type(ex).__name__
+    forms = {
+        "python list profiles": (lambda: ib.fractional_abundance(pad, pel, list(arr3), list(te3)), "ValueError"),
+        "tuple profiles": (lambda: ib.fractional_abundance(pad, pel, tuple(arr3), tuple(te3)), "ValueError"),
+        "0-d arrays": (lambda: ib.fractional_abundance(pad, pel, np.array(2e18), np.array(10.0)), "ValueError"),
+        "scalar n_e with array t_e": (lambda: ib.fractional_abundance(pad, pel, 2e18, te3), "ValueError"),
+        "arrays of different length": (lambda: ib.from_elementdensity(pad, pel, arr3[:2] * 1e-3, arr3, te3), "ValueError"),
+        "Function1D without free_variable": (lambda: ib.fractional_abundance(pad, pel, impl._arg1d(2e18, 0.0), impl._arg1d(10.0, 0.0)), "ValueError"),
+        "empty profiles": (lambda: ib.fractional_abundance(pad, pel, np.zeros(0), np.zeros(0)), "ok:(0,),(0,),(0,),(0,)"),
+        "empty profiles, no species": (lambda: ib.match_plasma_neutrality(pad, pel, [], np.zeros(0), np.zeros(0)), "ok:(0,),(0,),(0,),(0,)"),
+    }
+    form_out = {k: (outcome(fn), want) for k, (fn, want) in forms.items()}
+    bad_forms = {k: v for k, v in form_out.items() if v[0] != v[1]}
+    ctx.obligation("outcome of rejected / degenerate argument forms is the recorded one (%d forms)" % len(forms), "correspondence",
+                   not bad_forms, str(bad_forms))
+    dist["argument_form_outcomes"] = {k: v[0] for k, v in form_out.items()}
+
     # ---- ill-conditioned tables: recorded finding ------------------------------------------------------
+    del SCALE_PROBES[:]
     n_ill, ill = ill_conditioned_probe(ctx, ib)
+    if ill is not None:
+        ill[1]["scale_covariance_probes"] = list(SCALE_PROBES)
     ill_found = ill is not None and ill[0] > F(1, 1000)
     if ill_found:
         ctx.violation(KNOWN_KEY,
@@ -379,7 +428,8 @@ def run(ctx):
                 "moves the answer by more than the tolerance)",
         "distribution": dict(dist, cases=len(cases), corpus_cases=n_corpus, points=len(all_points),
                              ill_conditioned_probe_tables=n_ill,
-                             ill_conditioned_worst_deviation=float(ill[0]) if ill else None),
+                             ill_conditioned_worst_deviation=float(ill[0]) if ill else None,
+                             scale_covariance_probes_same_finding=list(SCALE_PROBES)),
         "tolerance": {"resolved points (every exact fraction >= 1e-12, decided by the model inside Coq)":
                           "abs 1e-7 on fractions; %d points, worst deviation this run %.3g (calibration: 1.6e-10 over 25 000 points)"
                           % (n_class["resolved"], worst["resolved"]),
